@@ -290,6 +290,13 @@ def gen_cases(ctx, scale=1.0):
                 c["socket_timeout"] = 2.0
                 c["ops"][0].update({"writes": [70, 70, 60], "stall": [1, pause]})
                 cases.append(c)
+    # a speed limit of 0 (and of less than one byte per second with nothing to send) means "no limit": one leg at a time
+    for key in ("srv_read", "srv_write", "cli_read", "cli_write", "user_read_pc", "user_write_pc"):
+        c = det_case(rng, 64, 200)
+        c["throttle"] = {k: (0 if k == key else None) for k in ("srv_read", "srv_write", "cli_read", "cli_write", "user_read_pc", "user_write_pc")}
+        c["ops"].append({"op": "down", "offset": 0, "read": 100000, "api": "download"})
+        c["ops"][0]["api"] = "stream"
+        cases.append(c)
     # a second session looks at the file (MLST) in the middle of the transfer
     for backend in ("memory", "pathio"):
         for bs in (2, 7, 64):
